@@ -83,7 +83,7 @@ const ME: [u8; 20] = [1u8; 20];
 
 /// token: length 4 with symbolic bytes, or one of the lengths 0 / 3 / 5
 fn any_token() -> Box<[u8]> {
-    let b: [u8; 5] = kani::any();
+    let b: [u8; 5] = kani::env();
     let which: u8 = kani::any();
     match which {
         0 => Box::new([]),
@@ -104,7 +104,7 @@ fn put_mutable_rules(fix_prev: Option<bool>, fix_cas: Option<bool>) {
     let from = SocketAddrV4::new([10, 0, 0, 7].into(), 6881);
     let token_ok: bool = kani::any();
     unsafe { TOKEN_VERDICT.v = token_ok };
-    let token: [u8; 4] = kani::any();
+    let token: [u8; 4] = kani::env();
     let target = Id::from(T1);
     let has_prev: bool = match fix_prev { Some(b) => b, None => kani::any() };
     let seq0: i64 = kani::any();
@@ -445,7 +445,7 @@ fn c03_o1_put_immutable() {
     let token: Box<[u8]> = if use_good { Box::new(good) } else { any_token() };
     let vb: u8 = kani::any();
     let honest: bool = kani::any();
-    let tb: [u8; 20] = kani::any();
+    let tb: [u8; 20] = kani::env();
     let target: Id = if honest { uf::h(&[vb]).into() } else { Id::from(tb) };
     let hash_ok = uf::h(&[vb]) == *target.as_bytes();
     let req = RequestSpecific {
